@@ -178,6 +178,7 @@ theorem truthTable_getD_snoc_lt (rs : List Rule) (r : Rule) (j : Nat) (h : j < r
 def Cond.refsBelow (n : Nat) : Cond → Prop
   | .lit _ => True
   | .str _ => True
+  | .cnt _ _ => True
   | .rule j => j < n
   | .not c => c.refsBelow n
   | .and a b => a.refsBelow n ∧ b.refsBelow n
@@ -188,6 +189,7 @@ theorem holds_congr (c : Cond) (n : Nat) (e1 e2 : Nat → Bool) (hc : c.refsBelo
   induction c with
   | lit b => rfl
   | str f => rfl
+  | cnt f g => rfl
   | rule j => exact he j hc
   | not c ih => simp [Cond.holds, ih hc]
   | and a b iha ihb => simp [Cond.holds, iha hc.1, ihb hc.2]
@@ -325,7 +327,7 @@ theorem finished_mem_iff (rs : List Rule) (imports : List String) (fl : Flags) (
         rw [← scan_trace, he]; simp
       have hv := play_verdict _ _ _ _ hlast
       rw [if_pos hlen.symm] at hv
-      rw [← hv]; simp [verdict, Msg.isRule, Msg.isModule]
+      rw [← hv]; simp [verdict, Msg.isRule, Msg.isModule, Msg.isTooMany]
     · exact absurd (hpre.subset h) (finished_not_mem_body rs imports fl)
   · intro h
     rw [(scan_complete rs imports fl script h).1]
